@@ -8,7 +8,7 @@ from ..valgen import Gen, copy_value, twin_all
 from ..condgen import CondGen
 from ..rulegen import RuleGen
 from ..ruleterms import RuleT, obs_rule_test, Tags, enc_arg1
-from ..pathterms import PathT, Prim
+from ..pathterms import PathT, Prim, ListT
 from ..terms import Leaf, Bin, Null
 from . import c05
 
@@ -213,6 +213,46 @@ def type_sensitive_rule(g, rg, doc):
     return RuleT(base.path, cond, [])
 
 
+def odd_index_rule(g, rg, doc):
+    """A concrete path argument with a part that Python subscripting would accept but the path semantics does not: a NEGATIVE index
+    into a list (no list index equals a negative number), an index into a STRING (a string is not a container), a bool / float in
+    an index position.  The rule selects the very items subscripting would give, so the verdict tells the two readings apart."""
+    spots = []
+
+    def walk(v, path):
+        if isinstance(v, list) and v:
+            spots.append(("list", path, len(v)))
+        if isinstance(v, str) and len(v) >= 1:
+            spots.append(("str", path, len(v)))
+        if isinstance(v, (list, dict)) and len(path) < 3:
+            for k, x in (enumerate(v) if isinstance(v, list) else v.items()):
+                if isinstance(k, (str, int)) and not isinstance(k, bool):
+                    walk(x, path + (k,))
+    walk(doc, ())
+    if not spots:
+        return None
+    kind, path, n = g.r.choice(spots)
+    m = g.r.choice(["equal_to", "not_equal_to", "in_"])
+    if kind == "list":
+        idx = g.r.choice([-g.r.randint(1, n), -g.r.randint(1, n), True if n > 1 else -1, float(n - 1)])
+        arg = PathT([Prim(x) for x in path] + [Prim(idx)])
+        rpath = PathT([Prim(x) for x in path] + [ListT()])
+    else:
+        if not isinstance(doc, dict):
+            return None
+        node = doc
+        for x in path:
+            node = node[x]
+        idx = g.r.choice([g.r.randrange(n), -1])
+        doc["_ch"] = node[idx]
+        arg = PathT([Prim(x) for x in path] + [Prim(idx)])
+        rpath = PathT([Prim("_ch")])
+    cond = Leaf("Value", m, [[arg, "zz"]] if m == "in_" else [arg])
+    if g.r.random() < 0.3:
+        cond = Bin(g.r.choice(["and", "or"]), cond, rg.rule(doc, cast_p=0.0).cond)
+    return RuleT(rpath, cond, [])
+
+
 def run(tier, seed, model_ok, spec_ok, replay=None):
     g = Gen(seed)
     rg = RuleGen(CondGen(g))
@@ -229,6 +269,8 @@ def run(tier, seed, model_ok, spec_ok, replay=None):
             rt = type_sensitive_rule(g, rg, doc) or rt
         elif g.r.random() < 0.08:
             rt = container_arg_rule(g, rg, doc) or rt
+        elif g.r.random() < 0.08:
+            rt = odd_index_rule(g, rg, doc) or rt
         try:
             c = c05.make_case(rt, doc)
         except E.Unencodable:
